@@ -159,6 +159,15 @@ def run(out: Outcome) -> None:
         ref = [rng.gauss(0, 1) for _ in range(n)]
         test = [rng.gauss(0.5, 1) for _ in range(m)]
         one(out, rng, "EMD", EMD, {}, ref, test, rng.choice([8, 12]), meth, lines, expect, user_mt=rng.choice([math.comb(n + m, n), 250, 1000]))
+    # data in another UNIT (seconds as nanoseconds, metres as micrometres ...): EMD and the energy distance follow the scale of the data, so every statistic of the
+    # test is then tiny (or huge) - the count b is still a count of `>=` among exactly these numbers, and the p-value its formula
+    for k_sc, sc in enumerate((1e-9, rng.choice([1e-12, 1e-7]), rng.choice([1e6, 1e9]))):
+        n, m = rng.randint(5, 10), rng.randint(5, 10)
+        ref = [sc * rng.gauss(0, 1) for _ in range(n)]
+        test = [sc * rng.gauss(1.5, 1) for _ in range(m)]
+        nm, cl = [("EMD", EMD), ("Energy", EnergyDistance)][(k_sc + out.seed) % 2]
+        one(out, rng, nm, cl, {}, ref, test, rng.choice([15, 25]), methods[(k_sc + out.seed) % len(methods)], lines, expect)
+        out.count("rescaled_unit_cases")
     # identical samples: every null statistic ties with the observed one for symmetric statistics
     one(out, rng, "HI", HINormalizedComplement, {"num_bins": 4}, [0.0, 1.0, 2.0, 3.0, 1.0, 2.0], [0.0, 1.0, 2.0, 3.0, 1.0, 2.0], 15, "conservative", lines, expect)
     # enumerate-all branch (fewer permutations exist than requested)
